@@ -77,7 +77,7 @@ func NewReport() *Report {
 	return &Report{Outcomes: map[string]int64{}, Counters: map[string]int64{}, seenSig: map[string]bool{}}
 }
 
-func (r *Report) Outcome(class string) { r.Outcomes[class]++ }
+func (r *Report) Outcome(class string)    { r.Outcomes[class]++ }
 func (r *Report) Count(k string, n int64) { r.Counters[k] += n }
 
 func (r *Report) Sample(x any) {
@@ -364,7 +364,7 @@ func runParent(ck *Check, tier string, seed int64, nw int, race bool, budget tim
 	m.Caps = uniq(m.Caps)
 	m.Notes = uniq(m.Notes)
 	if m.Nondet != "" {
-		fmt.Fprintln(os.Stdout, "NONDETERMINISM:", m.Nondet)
+		fmt.Fprintln(os.Stdout, "CHECK-BROKEN (nondeterminism or checker failure):", m.Nondet)
 		return 2
 	}
 	// classify findings
